@@ -157,6 +157,10 @@ func doInitExtensions(domain string, agentPaths []string, execCtx *rapidContext,
 		}
 		agentName := fmt.Sprintf("extension-%s-%d", path.Base(agentPath), execCtx.runtimeDomainGeneration)
 
+		// The exit channel must exist before the process can possibly exit: the
+		// events watcher panics when it gets a termination it has no channel for.
+		execCtx.shutdownContext.createExitedChannel(agentName)
+
 		err = execCtx.supervisor.Exec(context.Background(), &supvmodel.ExecRequest{
 			Domain: domain,
 			Name:   agentName,
@@ -174,12 +178,12 @@ func doInitExtensions(domain string, agentPaths []string, execCtx *rapidContext,
 			StderrWriter: agentStderrWriter,
 		})
 		if err != nil {
+			execCtx.shutdownContext.removeExitedChannel(agentName)
 			agentLaunchError(agent, execCtx.appCtx, err)
 			return err
 		}
 
 		verifhook.Point("exec.beforeExitChannel")
-		execCtx.shutdownContext.createExitedChannel(agentName)
 	}
 
 	if err := initFlow.AwaitExternalAgentsRegistered(); err != nil {
@@ -339,6 +343,9 @@ func doRuntimeDomainInit(execCtx *rapidContext, sbInfoFromInit interop.SandboxIn
 	checkCredentials(execCtx, bootstrapEnv)
 	name := fmt.Sprintf("%s-%d", runtimeProcessName, execCtx.runtimeDomainGeneration)
 
+	// see doInitExtensions: the channel has to be there before the process can exit
+	execCtx.shutdownContext.createExitedChannel(name)
+
 	err = execCtx.supervisor.Exec(context.Background(), &supvmodel.ExecRequest{
 		Domain: RuntimeDomain,
 		Name:   name,
@@ -367,6 +374,7 @@ func doRuntimeDomainInit(execCtx *rapidContext, sbInfoFromInit interop.SandboxIn
 	}()
 
 	if err != nil {
+		execCtx.shutdownContext.removeExitedChannel(name)
 		if fatalError, formattedLog, hasError := sbInfoFromInit.RuntimeBootstrap.CachedFatalError(err); hasError {
 			appctx.StoreFirstFatalError(execCtx.appCtx, fatalError)
 			execCtx.eventsAPI.SendImageErrorLog(interop.ImageErrorLogData(formattedLog))
@@ -379,7 +387,6 @@ func doRuntimeDomainInit(execCtx *rapidContext, sbInfoFromInit interop.SandboxIn
 	}
 
 	verifhook.Point("exec.beforeExitChannel")
-	execCtx.shutdownContext.createExitedChannel(name)
 
 	if err := initFlow.AwaitRuntimeRestoreReady(); err != nil {
 		runtimeDoneStatus = telemetry.RuntimeDoneError
